@@ -3,7 +3,7 @@
 cd "$(dirname "$0")/.."
 echo "== quick, clean tree"; tools/run_all.sh quick 2>&1 | grep -v "new=0" 
 echo "== seeded changes"; python3-vt tools/seed_check.py 2>&1 | grep -v DETECTED
-echo "== independent neutral refactorings (round 1: must be silent; rounds 3 and 4, bolder: exit 2 tolerated, no FALSE ALARM)"; python3-vt tools/neutral_check.py /verif/neutral 2>&1 | grep -v "silent$"; python3-vt tools/neutral_check.py /verif/neutral3 2>&1 | grep -v "silent$"; python3-vt tools/neutral_check.py /verif/neutral4 2>&1 | grep -v "silent$"; python3-vt tools/neutral_check.py /verif/neutral5 2>&1 | grep -v "silent$"
+echo "== independent neutral refactorings (round 1: must be silent; rounds 3 and 4, bolder: exit 2 tolerated, no FALSE ALARM)"; python3-vt tools/neutral_check.py /verif/neutral 2>&1 | grep -v "silent$"; python3-vt tools/neutral_check.py /verif/neutral3 2>&1 | grep -v "silent$"; python3-vt tools/neutral_check.py /verif/neutral4 2>&1 | grep -v "silent$"; python3-vt tools/neutral_check.py /verif/neutral5 2>&1 | grep -v "silent$"; python3-vt tools/neutral_check.py /verif/neutral6 2>&1 | grep -v "silent$"
 echo "== neutral sweeps"; python3-vt -u tools/neutral_sweep.py reformat docstr rename rename_deep rename_params tempvar augassign invert_guard reorder_defs else_after_jump annassign kwargs_style 2>&1 | grep -v silent
 echo "== thorough + strict self-validation"; VERIF_SELFCHECK_STRICT=1 tools/run_all.sh thorough 2>&1 | grep -v "rc=0"
 echo "== done"
